@@ -28,7 +28,7 @@ THEOREMS = [
     "Typedpy.C17.step_input_intact", "Typedpy.C17.convert_result_disjoint", "Typedpy.C17.heap_examples",
     "Typedpy.C17.versioned_deserialize_whole_path", "Typedpy.C17.versioned_deserialize_is_plain",
     "Typedpy.C17.whole_path_example", "Typedpy.C17.convert_fn_error_propagates", "Typedpy.C17.convert_fn_result",
-    "Typedpy.C17.versioned_deserialize_trusted_whole_path", "Typedpy.C17.convert_nonint_version_raises", "Typedpy.C17.deser_nonpositive_raises", "Typedpy.C17.step_contract_precedence_example", "Typedpy.C17.versioned_instance_latest",
+    "Typedpy.C17.versioned_deserialize_trusted_whole_path", "Typedpy.C17.convert_nonint_version_raises", "Typedpy.C17.deser_nonpositive_raises", "Typedpy.C17.step_contract_precedence_example", "Typedpy.C17.versioned_instance_latest", "Typedpy.C17.versioned_instance_latest_trusted",
 ]
 RULE = ("histories of 0..5 (thorough 0..8) mappings over top-level keys a..e (+ rarely `version`) with Constant, Deleted, "
         "moves (plain and dotted paths, degenerate paths), nested `._mapper` entries (depth <= 2) over sub-documents and "
